@@ -83,6 +83,7 @@ type pathState struct {
 	nvars      int
 	fmtOpaque  int
 	ptrPrinted int
+	depthBound int // vDepthBound: exceeding it is a violation on this path
 	transcriptSym bool
 	stubOff    map[string]bool
 }
